@@ -69,7 +69,7 @@ func drawCalls(t *tape.Tape, family string) []jsCall {
 		c := jsCall{}
 		c.ctx = t.Weighted("js.ctx", 3, 2) == 1
 		kinds := []string{"echo", "concat", "sum", "arr", "obj", "probe", "probe", "probe", "node", "nan", "inf", "null", "undef", "throw", "syntax", "oddargs",
-			"throwstr", "posinf", "nested", "objnull", "arrnull", "booleq", "echo", "mathfloor", "neginf2", "getter", "globals", "globals"}
+			"throwstr", "posinf", "nested", "objnull", "arrnull", "booleq", "echo", "mathfloor", "neginf2", "getter", "globals", "globals", "probethrow", "probethrow", "probethrow"}
 		c.kind = kinds[t.Intn("js.kind", len(kinds))]
 		if c.kind == "node" {
 			c.ctx = true
@@ -109,6 +109,18 @@ func drawCalls(t *tape.Tape, family string) []jsCall {
 		for range c.names {
 			c.vals = append(c.vals, drawJSValue(t))
 		}
+		if c.kind == "probethrow" && t.Chance("js.probethrow.throws", 1, 2) {
+			// the same script as the probing calls of this kind, but this call makes it throw
+			found := false
+			for i, nm := range c.names {
+				if nm == "a0" {
+					c.vals[i], found = "THROW", true
+				}
+			}
+			if !found {
+				c.names, c.vals = append(c.names, "a0"), append(c.vals, "THROW")
+			}
+		}
 		if c.kind == "concat" {
 			c.vals[0], c.vals[1] = "s"+fmt.Sprint(t.Intn("js.s", 100)), "t"
 		}
@@ -140,10 +152,14 @@ func (c jsCall) script() string {
 		return "[" + c.names[0] + ", " + c.names[1] + "]"
 	case "obj":
 		return "({k: " + c.names[0] + "})"
-	case "probe":
+	case "probe", "probethrow":
 		var parts []string
 		for _, n := range append(append([]string{}, jsUniverse...), "_node") {
 			parts = append(parts, "(typeof "+n+" !== 'undefined' ? '"+n+",' : '')")
+		}
+		if c.kind == "probethrow" {
+			// one script text for calls that fail and for calls that look around
+			return "if (typeof a0 !== 'undefined' && a0 === 'THROW') { throw new Error('asked to') } 'defined:' + " + strings.Join(parts, " + ")
 		}
 		return "'defined:' + " + strings.Join(parts, " + ")
 	case "node":
@@ -255,7 +271,14 @@ func (c jsCall) expected(nodeJSON string) (val interface{}, isErr bool) {
 		return int64(7), false
 	case "globals":
 		return "object,function,function,function,function,%E9,7,[object Array]", false
-	case "probe":
+	case "probe", "probethrow":
+		if c.kind == "probethrow" {
+			for i, nm := range c.names {
+				if nm == "a0" && c.vals[i] == "THROW" {
+					return nil, true
+				}
+			}
+		}
 		names := append([]string{}, c.names...)
 		sort.Strings(names)
 		s := "defined:"
